@@ -564,10 +564,10 @@ def Val.beq : Val → Val → Bool
   | .none, .none => true
   | .bool a, .bool b => a == b
   | .int a, .int b => a == b
-  | .float a, .float b => a == b
+  | .float a, .float b => a == b && !a.isNan            -- NaN != NaN
   | .str a, .str b => a == b
   | .bytes a, .bytes b => a == b
-  | .dec a, .dec b => a == b
+  | .dec a, .dec b => a == b && !(a == .nan)
   | .date a, .date b => a == b
   | .datetime a, .datetime b => a == b
   | .time a, .time b => a == b
@@ -727,6 +727,12 @@ def tzValid : Option Int → Bool
 def DateTime.valid (dt : DateTime) : Bool := dt.date.valid && dt.clock.valid && tzValid dt.tz
 def TimeV.valid (t : TimeV) : Bool := t.clock.valid && tzValid t.tz
 
+/-- CPython's `time.fromisoformat` reads an offset of less than one second (`+00:00:00.ffffff`) as UTC
+(interpreter defect, not utype's): such offsets are outside the domain of `time` values -/
+def tzWholeOrBig : Option Int → Bool
+  | none => true
+  | some o => o == 0 || o.natAbs ≥ 1000000
+
 def maxDelta : Nat := 86400000000 * 1000000000     -- |timedelta| < 10^9 days
 
 /-- "UTF-8 bytes" -/
@@ -781,7 +787,7 @@ def inDomain (cfg : Cfg) : Ty → Val → Bool
     | .datetime dt => dt.valid && (cfg.negOffset || match dt.tz with | some o => decide (o ≥ 0) | none => true)
     | _ => false
   | .time, v => match v with
-    | .time t => t.valid && t.clock.us % 1000 == 0 && (cfg.timeTz || t.tz.isNone || t.clock.us == 0)
+    | .time t => t.valid && tzWholeOrBig t.tz && t.clock.us % 1000 == 0 && (cfg.timeTz || t.tz.isNone || t.clock.us == 0)
     | _ => false
   | .delta, v => match v with | .delta us => decide (us.natAbs < maxDelta) | _ => false
   | .uuid, v => match v with | .uuid n => decide (n < 2 ^ 128) | _ => false
@@ -916,7 +922,7 @@ structure PrimLaws (P : Prims) : Prop where
   aware_other : ∀ dt : DateTime, dt.valid = true → dt.tz.isSome = true →
     ∀ f, f ∈ allFormats → f ≠ isoFmt dt.clock → P.strptime (isoDateTime dt) (f ++ "%z".toList) = none
   /-- `time.fromisoformat` reads what `from_time` writes (millisecond precision) -/
-  time_iso : ∀ t : TimeV, t.valid = true → t.clock.us % 1000 = 0 →
+  time_iso : ∀ t : TimeV, t.valid = true → tzWholeOrBig t.tz = true → t.clock.us % 1000 = 0 →
     P.timeFromIso (fromTime Cfg.fixed t) = some t
   /-- an ISO-8601 duration is not a float literal and is not matched by the "days, h:m:s" pattern -/
   dur_float : ∀ us : Int, P.floatParses (durationIso us) = false
